@@ -194,8 +194,9 @@ def c2_effects(fb, rep):
                        '' if ok else 'white arm %s vs mirrored black arm %s' % (sorted(set(a) - set(b)), sorted(set(b) - set(a))), f.sname)
         # (b) clearPiece == setPiece(sq, EMPTY) on the removed-piece effects
         def removed_region(f):
+            rp = set(_local_ids(f, _reads_board_square))
             arms = G.branch_arms(f, lambda e: e.get('k') == 'bin' and e.get('op') in ('!=', '==') and
-                                 any(n.get('k') == 'var' and n.get('n') == 'removedPiece' for n in walk(e)) and
+                                 any(n.get('k') == 'var' and n.get('id') in rp for n in walk(e)) and
                                  any(n.get('n') == 'Piece::EMPTY' for n in walk(e)))
             out = []
             for bid, t, fl, join in arms:
@@ -209,10 +210,17 @@ def c2_effects(fb, rep):
                '' if ra == rb else 'only in setPiece: %s; only in clearPiece: %s' % (sorted(set(ra) - set(rb)), sorted(set(rb) - set(ra))), cp.sname)
         # unconditional prefix: hash, matId, piece bitboard of the removed piece
         def prefix(f):
+            from ..core import canonical
+            rp = set(_local_ids(f, _reads_board_square))
             out = set()
+            names = f.alpha_names()
             for b, i, e in f.events():
-                s = show(e, 300)
-                if 'removedPiece' in s and G.is_effect(e) and not G.guards_of(f, set(f.blocks), b):
+                if any(n.get('k') == 'var' and n.get('id') in rp for n in walk(e)) and G.is_effect(e) and not G.guards_of(f, set(f.blocks), b):
+                    with canonical(f):
+                        s = show(e, 300)
+                    # the removed-piece local is the same role in both siblings whatever its declaration order
+                    for vid in rp:
+                        s = s.replace(names.get(vid, '\0'), '$removed')
                     out.add(s)
             return out
         pa, pb = prefix(sp), prefix(cp)
@@ -221,8 +229,11 @@ def c2_effects(fb, rep):
     # (c) movePieceNotPawn only for quiet non-pawn moves
     mm = fb.find1(P + '::makeMove')
     if rep.need(clause, mm, 'Position::makeMove'):
-        arms = G.branch_arms(mm, lambda e: any(n.get('k') == 'var' and n.get('n') == 'capP' for n in walk(e)) or
-                             (any(n.get('k') == 'var' and n.get('n') == 'fromMask' for n in walk(e)) and
+        cap_ids = set(_local_ids(mm, lambda t: _reads_board_square(t) and any(n.get('k') == 'call' and cname(n) == 'Move::to' for n in walk(t))))
+        fm_ids = set(_local_ids(mm, lambda t: any(n.get('k') == 'call' and cname(n) == 'Move::from' for n in walk(t)) and
+                                any((n.get('k') == 'bin' and n.get('op') == '<<') or (n.get('k') == 'call' and n.get('op') == '<<') for n in walk(t))))
+        arms = G.branch_arms(mm, lambda e: any(n.get('k') == 'var' and n.get('id') in cap_ids for n in walk(e)) or
+                             (any(n.get('k') == 'var' and n.get('id') in fm_ids for n in walk(e)) and
                               any(n.get('n') == 'Piece::WPAWN' for n in walk(e))))
         noisy = set()
         for bid, t, fl, join in arms:
@@ -255,18 +266,49 @@ def c2_effects(fb, rep):
             rep.ob(clause, 'K13 from-scratch completeness', 'Position() initialises %s' % fld, ok, f.where, '', f.sname)
 
 
+
+def _local_ids(f, pred):
+    """ids of the locals of f whose initialiser satisfies pred(init tree)."""
+    out = []
+    for _, _, e in f.events():
+        if e.get('k') == 'decl':
+            for v in e.get('vars', []):
+                if v.get('init') is not None and pred(v['init']):
+                    out.append(v['id'])
+    return out
+
+
+def _reads_board_square(t):
+    """squares[...] of this position"""
+    return any(n.get('k') == 'idx' and (ap(n.get('b')) or '') == 'this.squares' for n in walk(t)) or \
+        any(n.get('k') == 'call' and n.get('op') == '[]' and (ap(n.get('recv')) or '') == 'this.squares' for n in walk(t)) or \
+        any(n.get('k') == 'call' and cname(n) == P + '::getPiece' and (n.get('recv') or {}).get('k') == 'this' for n in walk(t))
+
+
+def _hash_locals(f):
+    """locals that are finally stored into this.hashKey (from-scratch accumulators)"""
+    out = set()
+    for _, _, e in f.events():
+        if e.get('k') == 'asg' and e.get('op') == '=' and ap(e.get('l')) == 'this.hashKey':
+            r = _strip(e.get('r'))
+            if isinstance(r, dict) and r.get('k') == 'var' and r.get('vk') == 'local':
+                out.add(r.get('id'))
+    return out
+
+
 def _accumulators_reset(rep, clause, f):
     """Every field that is updated by accumulation (compound assignment or an adding mutator)
     has an absolute write that dominates the first accumulation."""
     accum = {}
     resets = {}
     local_alias = {}
+    hash_ids = _hash_locals(f)
     for b, i, e in f.events():
         if e.get('k') == 'asg':
             p = ap(e.get('l'))
             fl = _field_of_path(p) if p else None
             if fl is None and isinstance(e.get('l'), dict) and e['l'].get('k') == 'var' and e['l'].get('vk') == 'local':
-                fl = 'local:' + e['l'].get('n')
+                fl = 'local:' + ('hash' if e['l'].get('id') in hash_ids else '#%s' % e['l'].get('id'))
             if fl is None:
                 continue
             base = fl[:-2] if fl.endswith('[]') else fl
@@ -277,7 +319,7 @@ def _accumulators_reset(rep, clause, f):
         elif e.get('k') == 'decl':
             for v in e.get('vars', []):
                 if v.get('init') is not None:
-                    resets.setdefault('local:' + v.get('n'), []).append((b, i))
+                    resets.setdefault('local:' + ('hash' if v.get('id') in hash_ids else '#%s' % v.get('id')), []).append((b, i))
         elif e.get('k') == 'call' and e.get('recv') is not None:
             p = ap(e['recv'])
             fl = _field_of_path(p) if p else None
@@ -341,24 +383,29 @@ def _xor_terms(f, target_pred):
     return out
 
 
-def _shape(t):
+def _shape(t, f=None):
     """Rendering with variable leaves abstracted (key-table identity and index structure stay)."""
-    s = show(t, 400)
+    from ..core import canonical
+    with canonical(f):
+        s = show(t, 400)
     s = re.sub(r'\bthis->', '', s)
     s = re.sub(r'\b(castleMask|epSquare|whiteMove)\b', '#', s)
+    s = re.sub(r'\$[pl]\d+', '#', s)
     return s
 
 
 def c3_hash_tables(fb, rep):
     clause = 'C02.3'
+    hash_local = set()
+
     def is_hash(l):
-        return ap(l) == 'this.hashKey' or (isinstance(l, dict) and l.get('k') == 'var' and l.get('n') == 'hash')
+        return ap(l) == 'this.hashKey' or (isinstance(l, dict) and l.get('k') == 'var' and l.get('id') in hash_local)
     inc = {}
     for nm in ('setWhiteMove', 'setCastleMask', 'setEpSquare'):
         f = fb.find1(P + '::' + nm)
         if rep.need(clause, f, P + '::' + nm) is None:
             return
-        inc[nm] = sorted({_shape(t) for t in _xor_terms(f, is_hash)})
+        inc[nm] = sorted({_shape(t, f) for t in _xor_terms(f, is_hash)})
     rep.ob(clause, 'K10 sibling agreement', 'setWhiteMove toggles exactly the side key', inc['setWhiteMove'] == ['::Position::whiteHashKey'] or
            inc['setWhiteMove'] == ['whiteHashKey'], '', str(inc['setWhiteMove']), P + '::setWhiteMove')
     rep.ob(clause, 'K10 sibling agreement', 'setCastleMask xors out the old and xors in the new castle key (same table)',
@@ -390,7 +437,9 @@ def c3_hash_tables(fb, rep):
         f = fb.find1(P + '::' + nm)
         if rep.need(clause, f, P + '::' + nm) is None:
             continue
-        sc = {_shape(t) for t in _xor_terms(f, is_hash)}
+        hash_local.clear()
+        hash_local.update(_hash_locals(f))
+        sc = {_shape(t, f) for t in _xor_terms(f, is_hash)}
         for inm in ('setWhiteMove', 'setCastleMask', 'setEpSquare'):
             ok = set(inc[inm]) <= sc
             rep.ob(clause, 'K10 sibling agreement', '%s hashes with the same key term as %s' % (nm, inm), ok, f.where,
@@ -473,14 +522,22 @@ def c4_undo(fb, rep):
         return None, None
     g1, e1 = counter_guard(mm, '++')
     g2, e2 = counter_guard(um, '--')
+    def guard_is_not_mover_white(f, e):
+        # the guard is the negation of the local that caches whiteMove (whatever it is called)
+        if e is None:
+            return False
+        b_ = next(bb for bb, ii, ev in f.events() if ev is e)
+        gt = G.guard_trees(f, set(f.blocks), b_)
+        wt = set(_local_ids(f, lambda t: ap(t) == 'this.whiteMove'))
+        return len(gt) == 1 and gt[0][1] is False and isinstance(_strip(gt[0][0]), dict) and _strip(gt[0][0]).get('id') in wt
     rep.ob(clause, 'K1 save/restore', 'fullMoveCounter is incremented and decremented under the same condition (black has moved)',
-           g1 is not None and g1 == g2 == ['!wtm'], mm.where, 'makeMove guard %s, unMakeMove guard %s' % (g1, g2), mm.sname)
+           guard_is_not_mover_white(mm, e1) and guard_is_not_mover_white(um, e2), mm.where, 'makeMove guard %s, unMakeMove guard %s' % (g1, g2), mm.sname)
     # wtm in both functions denotes the mover
     def wtm_def(f):
         for b, i, e in f.events():
             if e.get('k') == 'decl':
                 for v in e.get('vars', []):
-                    if v.get('n') == 'wtm':
+                    if ap(v.get('init')) == 'this.whiteMove':
                         return (b, i), ap(v.get('init'))
         return None, None
     p1, d1 = wtm_def(mm)
@@ -506,8 +563,20 @@ def c5_serialize(fb, rep):
         return
     # serialize: flags = (flags << w) | (field & m)
     packs = []
+    # the flag word: the local finally stored into the last data word (serialize) / initialised from it (deSerialize)
+    def flag_ids_se(f):
+        out = set()
+        for _, _, e in f.events():
+            if e.get('k') == 'asg' and e.get('op') == '=' and isinstance(_strip(e.get('r')), dict) and _strip(e['r']).get('k') == 'var' and _strip(e['r']).get('vk') == 'local' and \
+                    any(n.get('k') == 'idx' and (_strip(n.get('i')) or {}).get('cv') == 4 for n in walk(e.get('l'))):
+                out.add(_strip(e['r'])['id'])
+        return out
+
+    def flag_ids_de(f):
+        return set(_local_ids(f, lambda t: any(n.get('k') == 'idx' and (_strip(n.get('i')) or {}).get('cv') == 4 for n in walk(t))))
+    fl_se, fl_de = flag_ids_se(se), flag_ids_de(de)
     for b, i, e in se.events():
-        if e.get('k') == 'asg' and isinstance(e.get('l'), dict) and e['l'].get('n') == 'flags' and e.get('op') == '=':
+        if e.get('k') == 'asg' and isinstance(e.get('l'), dict) and e['l'].get('id') in fl_se and e.get('op') == '=':
             r = _strip(e.get('r'))
             if isinstance(r, dict) and r.get('k') == 'bin' and r.get('op') == '|':
                 sh = _strip(r.get('l'))
@@ -522,16 +591,26 @@ def c5_serialize(fb, rep):
     unpacks = []
     seq = []
     for b, i, e in de.events():
-        if e.get('k') == 'asg' and isinstance(e.get('l'), dict) and e['l'].get('n') == 'flags' and e.get('op') == '>>=':
+        if e.get('k') == 'asg' and isinstance(e.get('l'), dict) and e['l'].get('id') in fl_de and e.get('op') == '>>=':
             seq.append(('shift', (_strip(e.get('r')) or {}).get('cv')))
         else:
             r = e.get('r') if e.get('k') == 'asg' else None
             if e.get('k') == 'decl':
                 for v in e.get('vars', []):
-                    if v.get('init') is not None and any(n.get('k') == 'var' and n.get('n') == 'flags' for n in walk(v['init'])) and v.get('n') != 'flags':
+                    if v.get('init') is not None and any(n.get('k') == 'var' and n.get('id') in fl_de for n in walk(v['init'])) and v.get('id') not in fl_de:
                         m = [n.get('r', {}).get('cv') for n in walk(v['init']) if n.get('k') == 'bin' and n.get('op') == '&']
-                        seq.append(('field', v.get('n'), m[0] if m else None))
-            elif r is not None and any(n.get('k') == 'var' and n.get('n') == 'flags' for n in walk(r)) and not (isinstance(e.get('l'), dict) and e['l'].get('n') == 'flags'):
+                        # the field this temporary ends up in (data flow: the first store whose value mentions it)
+                        dest = None
+                        for _b2, _i2, e2 in de.events():
+                            if e2.get('k') == 'asg' and (ap(e2.get('l')) or '').startswith('this.') and any(n.get('k') == 'var' and n.get('id') == v['id'] for n in walk(e2.get('r'))):
+                                dest = ap(e2['l'])[5:]
+                                break
+                            if e2.get('k') == 'call' and cname(e2).endswith('::operator=') and (ap(e2.get('recv')) or '').startswith('this.') and \
+                                    any(n.get('k') == 'var' and n.get('id') == v['id'] for a_ in e2.get('args', []) for n in walk(a_)):
+                                dest = ap(e2['recv'])[5:]
+                                break
+                        seq.append(('field', dest or v.get('n'), m[0] if m else None))
+            elif r is not None and any(n.get('k') == 'var' and n.get('id') in fl_de for n in walk(r)) and not (isinstance(e.get('l'), dict) and e['l'].get('id') in fl_de):
                 m = [(_strip(n.get('r')) or {}).get('cv') for n in walk(r) if n.get('k') == 'bin' and n.get('op') == '&']
                 seq.append(('field', (ap(e.get('l')) or '').replace('this.', ''), m[0] if m else None))
     cur = None
@@ -559,10 +638,20 @@ def c5_serialize(fb, rep):
                 ok = False
     rep.ob(clause, 'K10 inverse layout', 'serialize packs and deSerialize unpacks the same fields with the same widths in reverse order', ok, se.where, detail, se.sname)
     # board nibbles
+    def word_ids(f):
+        out = set()
+        for _, _, e in f.events():
+            if e.get('k') == 'asg' and e.get('op') == '=' and isinstance(_strip(e.get('r')), dict) and _strip(e['r']).get('vk') == 'local' and \
+                    any(n.get('k') == 'idx' and 'cv' not in (_strip(n.get('i')) or {}) for n in walk(e.get('l'))) and any(n.get('k') == 'mem' and n.get('f', '').endswith('::v') for n in walk(e.get('l'))):
+                out.add(_strip(e['r'])['id'])
+        out |= set(_local_ids(f, lambda t: any(n.get('k') == 'idx' and 'cv' not in (_strip(n.get('i')) or {}) for n in walk(t)) and any(n.get('k') == 'mem' and n.get('f', '').endswith('::v') for n in walk(t))))
+        return out
+
     def nib(f, op):
+        wid = word_ids(f)
         return sorted({(_strip(n.get('r')) or {}).get('cv') for _, _, e in f.events() for n in walk(e)
-                       if (n.get('k') == 'bin' and n.get('op') == op and isinstance(_strip(n.get('l')), dict) and _strip(n.get('l')).get('n') == 'v') or
-                       (n.get('k') == 'asg' and n.get('op') == op + '=' and isinstance(n.get('l'), dict) and n['l'].get('n') == 'v')} - {None})
+                       if (n.get('k') == 'bin' and n.get('op') == op and isinstance(_strip(n.get('l')), dict) and _strip(n.get('l')).get('id') in wid) or
+                       (n.get('k') == 'asg' and n.get('op') == op + '=' and isinstance(n.get('l'), dict) and n['l'].get('id') in wid)} - {None})
     sh_s, sh_d = nib(se, '<<'), nib(de, '>>')
     mk_d = nib(de, '&')
     npt = fb.const('Piece::nPieceTypes')
@@ -577,10 +666,10 @@ def c5_serialize(fb, rep):
             if t and t.get('c') == 'ForStmt' and isinstance(t.get('cond'), dict):
                 c = t['cond']
                 l = _strip(c.get('l'))
-                out.append((l.get('n') if isinstance(l, dict) else None, c.get('op'), (_strip(c.get('r')) or {}).get('cv')))
-        return sorted(x for x in out if x[0] in ('i', 'sq'))
+                out.append((c.get('op'), (_strip(c.get('r')) or {}).get('cv')))
+        return sorted(out, key=str)
     ls, ld = loops(se), loops(de)
-    ok = ('i', '<', 4) in ls and ('sq', '<', 16) in ls and ('i', '<', 4) in ld and ('sq', '>=', 0) in ld
+    ok = ('<', 4) in ls and ('<', 16) in ls and ('<', 4) in ld and ('>=', 0) in ld
     rep.ob(clause, 'K10 inverse layout', 'serialize fills each word from square 0 up, deSerialize drains it from square 15 down', ok, de.where,
            'serialize loops %s; deSerialize loops %s' % (ls, ld), de.sname)
 
